@@ -11,10 +11,20 @@ from . import family
 PEN = {"separated": 0.03, "margin": 0.003, "touching": -0.0015, "shallow": -0.012, "deep": -0.04}  # target signed distance
 
 
+def mesh_asset(name, r):
+  """a random convex polytope: 8..14 points on an ellipsoid of semi-axes 60..120 mm (MuJoCo takes the convex hull)"""
+  s = r.uniform(0.06, 0.12, size=3)
+  n = int(r.integers(8, 15))
+  pts = np.array([family._unit(r) for _ in range(n)]) * s
+  return f'<mesh name="m{name}" vertex="{family._v(pts.reshape(-1), 6)}"/>'
+
+
 def geom_xml(name, t, g, r, pos, quat, explicit):
   s = r.uniform(0.06, 0.12, size=3)
-  size = {"plane": "2 2 .1", "sphere": family._v(s[:1]), "capsule": family._v(s[:2]), "cylinder": family._v(s[:2]), "ellipsoid": family._v(s), "box": family._v(s)}[t]
   a = f' condim="{g["condim"]}" priority="{g["priority"]}" friction="{g["friction"] / 10} 0.01 0.001" margin="{g["margin"] / 1000}" solmix="{g["solmix"]}" solref="{0.01 + 0.004 * g["solmix"]} 1"'
+  if t == "mesh":
+    return f'<geom name="{name}" type="mesh" mesh="m{name}" pos="{family._v(pos)}" quat="{family._v(quat)}"{a}/>'
+  size = {"plane": "2 2 .1", "sphere": family._v(s[:1]), "capsule": family._v(s[:2]), "cylinder": family._v(s[:2]), "ellipsoid": family._v(s), "box": family._v(s)}[t]
   return f'<geom name="{name}" type="{t}" size="{size}" pos="{family._v(pos)}" quat="{family._v(quat)}"{a}/>'
 
 
@@ -38,9 +48,11 @@ def build(case: Dict[str, Any], seed: int):
     ga = geom_xml("a", c["t1"], c["g1"], family.rng_for(c, seed, "ga"), np.zeros(3), qa, c["explicit"])
     gb = geom_xml("b", c["t2"], c["g2"], family.rng_for(c, seed, "gb"), np.zeros(3), np.array([1.0, 0, 0, 0]), c["explicit"])
     # MJWarp documents (put_model warning) that these convex pairs get at most one contact: compare them with MuJoCo's single-contact mode
-    single = (c["t1"], c["t2"]) in (("capsule", "cylinder"), ("cylinder", "cylinder"), ("cylinder", "box"))
+    single = (c["t1"], c["t2"]) in (("capsule", "cylinder"), ("cylinder", "cylinder"), ("cylinder", "box"), ("capsule", "mesh"), ("cylinder", "mesh"))
     flag = '<flag multiccd="disable"/>' if single else ""
-    return (f'<mujoco><option gravity="0 0 0">{flag}</option><worldbody>{ga}<body name="B" pos="{family._v(direction * dist_along, 7)}" quat="{family._v(qb, 7)}"><freejoint/>{gb}</body></worldbody>'
+    assets = "".join(mesh_asset(nm, family.rng_for(c, seed, "mesh" + nm)) for nm, t in (("a", c["t1"]), ("b", c["t2"])) if t == "mesh")
+    assets = f"<asset>{assets}</asset>" if assets else ""
+    return (f'<mujoco><option gravity="0 0 0">{flag}</option>{assets}<worldbody>{ga}<body name="B" pos="{family._v(direction * dist_along, 7)}" quat="{family._v(qb, 7)}"><freejoint/>{gb}</body></worldbody>'
             f'{pair}</mujoco>')
 
   def signed(dist_along):
